@@ -16,6 +16,7 @@ pub struct MarkdownEventsReader {
     line_starts: Vec<usize>,
     content: String,
     metadata_block: bool,
+    html_block: bool,
     metadata: Option<String>,
 }
 
@@ -29,6 +30,7 @@ impl MarkdownEventsReader {
             line_starts: Vec::new(),
             content: String::new(),
             metadata_block: false,
+            html_block: false,
             metadata: None,
         }
     }
@@ -64,6 +66,8 @@ impl MarkdownEventsReader {
                 End(tag) => {
                     self.end_tag(tag, range);
                 }
+                // raw html blocks are dropped, with the indentation reported as their text
+                Text(_) if self.html_block => {}
                 Text(text) => {
                     if !self.metadata_block {
                         match self.top_block() {
@@ -200,7 +204,7 @@ impl MarkdownEventsReader {
                     text: String::default(),
                 }))
             }
-            Tag::HtmlBlock => {}
+            Tag::HtmlBlock => self.html_block = true,
             Tag::List(num) => {
                 if num.is_some() {
                     self.push_block(DocumentBlock::OrderedList(OrderedList { items: vec![] }));
@@ -318,7 +322,7 @@ impl MarkdownEventsReader {
             TagEnd::CodeBlock => {
                 self.pop_block();
             }
-            TagEnd::HtmlBlock => {}
+            TagEnd::HtmlBlock => self.html_block = false,
             TagEnd::List(_) => {
                 self.pop_block();
             }
